@@ -225,6 +225,38 @@ class Rig:
                 self.air.close()
 
 
+def poller_ends(gwy, ids) -> dict[str, str]:
+    """How the named entities' poller tasks ended (for the witness)."""
+    ents = list(gwy.devices)
+    for tcs in gwy.systems:
+        ents += [tcs, *tcs.zones] + ([tcs.dhw] if tcs.dhw else [])
+    out = {}
+    for e in ents:
+        t = getattr(e, "_discovery_poller", None)
+        if str(e.id) in ids and t is not None and t.done():
+            out[str(e.id)] = "cancelled" if t.cancelled() else repr(t.exception())[:200] + " @ " + (innermost_lib_frame(t.exception()) if t.exception() else "returned")
+    return out
+
+
+def died_sending(gwy, ids) -> set[str]:
+    """The named entities whose poller task ended with an exception that came up through a send call: the
+    only way a snapshot/restore (which pauses sending) can be what killed it.  A poller that dies of something
+    else while the clock moves on during a slow restore (seen: a UFC with no system yet, AttributeError in
+    find_latest_msg) would have died at that time anyway - not the operation's doing, not C13's subject."""
+    import traceback
+
+    ents = list(gwy.devices)
+    for tcs in gwy.systems:
+        ents += [tcs, *tcs.zones] + ([tcs.dhw] if tcs.dhw else [])
+    out = set()
+    for e in ents:
+        t = getattr(e, "_discovery_poller", None)
+        if str(e.id) in ids and t is not None and t.done() and not t.cancelled() and t.exception() is not None:
+            if any("send_cmd" in f.name for f in traceback.extract_tb(t.exception().__traceback__)):
+                out.add(str(e.id))
+    return out
+
+
 def live_pollers(gwy) -> set[str]:
     """Entities whose discovery poller task is running (part of 'the gateway running exactly as before')."""
     ents = list(gwy.devices)
@@ -336,11 +368,15 @@ async def snapshot_ops(rig: Rig, rng) -> None:
     dead = pollers_before - live_pollers(gwy)
     dead = {d for d in dead if d in {str(x.id) for x in gwy.devices} | {str(t.id) for t in gwy.systems} | {str(z.id) for t in gwy.systems for z in t.zones}}
     ctx.count("pollers.checked", len(pollers_before))
+    if dead - died_sending(gwy, dead):
+        ctx.count("pollers.died_of_something_else", len(dead - died_sending(gwy, dead)))
+        ctx.info.setdefault("pollers_died_unrelated", []).append(str(poller_ends(gwy, dead - died_sending(gwy, dead)))[:200])
+    dead = died_sending(gwy, dead)
     if dead:
         ctx.violate(
             f"C13|engine|discovery-pollers-died-during|{where}",
             f"{where} left the gateway polling fewer entities than before (discovery poller tasks ended)",
-            {"dead": sorted(dead)[:6], "before": len(pollers_before), "last_packets": rig.trail[-6:]},
+            {"dead": sorted(dead)[:6], "ended": poller_ends(gwy, dead), "before": len(pollers_before), "last_packets": rig.trail[-6:], "history": getattr(rig, "meta", None)},
         )
     await rig.marker(where)
     await rig.probe_send(where)
@@ -352,6 +388,7 @@ async def run_history(loop: vloop.VirtualLoop, ctx, h: hist.History, stack: str,
     if discovery:
         ctx.count("histories.discovery_on")
     await rig.start()
+    rig.meta = dict(h.meta, stack=stack, eavesdrop=eavesdrop, discovery=discovery, trial=trial)
     gwy = rig.gwy
     lines = h.lines
     k_views = rng.choice((1, 3, 7)) if len(lines) < 80 else rng.choice((5, 11, 23))
